@@ -8,6 +8,7 @@ package main
 
 import (
 	"fmt"
+	"math/big"
 	"os"
 	"runtime"
 	"strings"
@@ -539,6 +540,35 @@ func schedScenarios() []scenario {
 			return []thread{alias("z.Quo(x,z)", quozx, y, x, nil, 40), alias("z.Sqrt(z)", sqrtz, y, nil, nil, 30)}
 		}), thr},
 	)
+	// input conversions (no Decimal operand of their own, but the same pool, conversion tables and
+	// scratch buffers) running next to readers of the shared operands
+	parse := func(lit string, p uint32, m uint8) thread {
+		return thread{"Parse", func() string {
+			z, _, err := fresh(p, m).Parse(lit, 0)
+			if err != nil {
+				return "error " + err.Error()
+			}
+			return dig(z)
+		}}
+	}
+	setf := func(f float64, p uint32) thread {
+		return thread{"SetFloat64/SetRat", func() string {
+			a := dig(fresh(p, ToNearestEven).SetFloat64(f))
+			b := dig(fresh(p, ToZero).SetRat(big.NewRat(1234567890123456789, 3<<40)))
+			return a + " " + b
+		}}
+	}
+	const lit1 = "9876543210987654321098765.4321e-7"
+	const lit2 = "0x1.fffffffffffffffffp+70"
+	scs = append(scs,
+		scenario{"Parse||Parse", mk(func(x, y, w *Dec) []thread { return []thread{parse(lit1, 20, ToNearestEven), parse(lit2, 30, ToZero)} }), thr},
+		scenario{"Parse||Text(prec)", mk(func(x, y, w *Dec) []thread {
+			return []thread{parse(lit1, 25, ToNearestAway), textp(x)}
+		}), thr},
+		scenario{"SetFloat64/SetRat||Float64", mk(func(x, y, w *Dec) []thread {
+			return []thread{setf(0x1.8p-20, 40), f64(y)}
+		}), thr},
+	)
 	// every non-arithmetic operand-taking operation against itself (two goroutines inside the same
 	// function at once: a function-local cache or scratch variable hoisted to package scope shows here)
 	for _, op := range roOps() {
@@ -588,7 +618,7 @@ func schedLayers(tier string) []Layer {
 	return []Layer{{
 		Name:   "Z1-schedules",
 		Units:  len(units),
-		Bounds: "44 scenarios of 2–3 goroutines (16 hand-written mixes + 7 with private receivers that are also operands + every non-arithmetic operand-taking operation against itself), each one operation with its own receiver on shared 3–5-word operands (thresholds 2/1/4 so that Karatsuba, squaring and long division use pooled scratch buffers); level A: scheduling points before and after every pool Get/Put, all interleavings for 2 threads (preemption bound 6; 3 threads: 3) × pool-answer deviations <= 2; level B: additionally a point before every arithmetic kernel call, preemption bound 2 (quick) / 3 (thorough) for 2 and 3 threads, pool deviations <= 1; adversarial pool (garbage on Get, poison on Put, ownership tracking); oracle: each thread's result == its sequential result, operands unchanged, no panic, pool protocol respected",
+		Bounds: "47 scenarios of 2–3 goroutines (16 hand-written mixes + 7 with private receivers that are also operands + 3 with input conversions (Parse, SetFloat64, SetRat) next to readers + every non-arithmetic operand-taking operation against itself), each one operation with its own receiver on shared 3–5-word operands (thresholds 2/1/4 so that Karatsuba, squaring and long division use pooled scratch buffers); level A: scheduling points before and after every pool Get/Put, all interleavings for 2 threads (preemption bound 6; 3 threads: 3) × pool-answer deviations <= 2; level B: additionally a point before every arithmetic kernel call, preemption bound 2 (quick) / 3 (thorough) for 2 and 3 threads, pool deviations <= 1; adversarial pool (garbage on Get, poison on Put, ownership tracking); oracle: each thread's result == its sequential result, operands unchanged, no panic, pool protocol respected",
 		Run: func(c *Ctx, u int) {
 			if !poolSeamsPresent() {
 				fmt.Fprintln(os.Stderr, "HARNESS-ERROR: pool seams not present in this build (overlay missing)")
